@@ -138,6 +138,30 @@ func ProfileFor(prop string) *Profile {
 		p.MaxReqs = 80
 		p.MaxSteps = 200
 		p.PRouted = 0.1
+	case "C13":
+		p.PFront = 1
+		p.PHostile = 0.55
+		p.PCrashRun = 0.4
+		p.PRouted = 0.7
+		p.PTiny = 0.1
+		p.PFine = 0.3
+		p.Promises = []string{"p0", "p1", "a:b", "b:c", "a"}
+	case "C15":
+		p.PFront = 1
+		p.PTiny = 0.35
+		p.PFaultRun = 0.6
+		p.PShutdown = 0.15
+	case "C20":
+		p.PFront = 1
+		p.HostileData = true
+		p.PCrashRun = 0.5
+		p.PTiny = 0.05
+		p.PFaultRun = 0.2
+		p.PRouted = 0.6
+		p.Promises = []string{"p0", "A", "a", "a ", "a/b", "a:b", "ä", "<a&b>", "a%2Fb", "a.b", "{x}", "a?b=c"}
+		p.Subs = []string{"s0", "s:1", "S0"}
+		p.Schedules = []string{"s0", "S0", "a<b&c", "s/1"}
+		p.Resources = []string{"l0", "L0", "l 0"}
 	case "C19":
 		p.Prologue = "tasks"
 		p.PTiny = 0.1
